@@ -762,6 +762,43 @@ def fam_order(g, prop, count, types=None, nmax=7, exhaustive3=False):
     return {"d": lst}
 
 
+def fam_order_big(g, prop, count):
+    """orderings of patterns beyond the dense-row / dense-column thresholds of COLAMD (more than max(16, 10 sqrt(n))
+    entries in a line needs n > 100): sparse band plus one or two nearly full rows and/or columns, columns whose only
+    entries lie in the dense rows, empty columns; the ordering must still be a bijection, the tree postordered"""
+    r = g.r
+    lst = []
+    for i in range(count):
+        n = r.randint(101, 200)
+        m = n
+        P = set()
+        for j in range(n):
+            for d in (0, r.randint(1, 3), -r.randint(1, 3)):
+                if 0 <= j + d < n and r.random() < 0.85:
+                    P.add((j + d, j))
+        drows = r.sample(range(n), r.choice([0, 1, 1, 2]))
+        for dr in drows:
+            P |= {(dr, j) for j in range(n) if r.random() < 0.97}
+        dcols = r.sample(range(n), r.choice([0, 0, 1, 2]))
+        for dc in dcols:
+            P |= {(i2, dc) for i2 in range(n) if r.random() < 0.97}
+        if drows:
+            for j in r.sample(range(n), r.randint(1, 4)):          # columns that live in dense rows only
+                P = {k for k in P if k[1] != j} | {(dr, j) for dr in drows if r.random() < 0.8}
+                if not any(k[1] == j for k in P):
+                    P.add((drows[0], j))
+        if r.random() < 0.3:
+            z = r.randrange(n); P = {k for k in P if k[1] != z}     # an empty column
+        A = {k: (float(r.choice([1, 2, -1, 3])), 0.0) for k in P}
+        lines = g.mat_lines(A, m, n, "NC", False)
+        for meth in r.sample([COLAMD, COLAMD, MMD_ATA, MMD_AT_PLUS_A, NATURAL], 2):
+            lines += opt_lines({"default": 0, "Sym": 0, "Fact": 0})
+            lines.append("call order %d" % meth)
+        lines += ["destroy all", "ledger"]
+        lst.append({"id": "%s-orderbig-%05d-d" % (prop, i), "lines": lines, "n": n})
+    return {"d": lst}
+
+
 # ----------------------------------------------------------------------------- C14
 def vec_line(cmd, vals, inc, cplx):
     return "%s %d %d " % (cmd, len(vals), inc) + " ".join(hx(v[0]) + ((" " + hx(v[1])) if cplx else "") for v in vals)
@@ -843,8 +880,26 @@ def fam_ilu(g, prop, count, types, nmax=8):
         for i in range(k):
             r = g.r
             n = r.randint(1, nmax)
-            kind = r.choice(["lu", "zerodiag", "generic", "generic", "singlead", "float"])
-            if kind == "lu":
+            kind = r.choice(["lu", "zerodiag", "generic", "generic", "singlead", "float", "tree"])
+            if kind == "tree":
+                # larger sparse pattern whose column elimination tree has several leaves and short chains (relaxed
+                # supernodes at leaves, also for subtrees that are not contiguous before postordering), small entries that
+                # dropping removes, some zero diagonal entries
+                n = r.randint(9, 18)
+                A = {}
+                for j in range(n):
+                    if r.random() < 0.8:
+                        A[(j, j)] = g.value("pow2", cplx)
+                    for _ in range(r.choice([1, 1, 2, 3])):
+                        i2 = r.randrange(n)
+                        v = g.value("pow2", cplx)
+                        sc = 2.0 ** -r.choice([0, 0, 6, 12])
+                        A[(i2, j)] = (v[0] * sc, v[1] * sc)
+                A = {k: v for k, v in A.items()}
+                P = g.ensure_structurally_nonsingular(set(A), n)
+                for k in P:
+                    A.setdefault(k, g.value("pow2", cplx))
+            elif kind == "lu":
                 A = g.lu_product(n, cplx)
             elif kind == "float":
                 A, _ = g.matrix(n, n, cplx, style="float")
@@ -860,7 +915,8 @@ def fam_ilu(g, prop, count, types, nmax=8):
             o = {"iludefault": 0, "ColPerm": r.choice([NATURAL, COLAMD, MMD_ATA, MMD_AT_PLUS_A]), "u": float(r.choice([1.0, 0.5, 0.125, 0.0625, 0.0])),
                  "DropRule": rule, "DropTol": 0.0 if nodrop else float(r.choice([0.0, 2.0 ** -10, 2.0 ** -4, 0.5])), "FillFactor": float(r.choice([1.0, 2.0, 10.0])),
                  "Norm": r.choice([0, 1, 2]), "MILU": r.choice([0, 0, 1, 2, 3]), "FillTol": float(r.choice([2.0 ** -7, 0.01, 2.0 ** -20])),
-                 "RowPerm": r.choice([0, 0, 1]), "Trans": r.choice([0, 1, 2]), "Equil": r.choice([0, 1]), "PivotGrowth": r.choice([0, 1]), "Cond": r.choice([0, 1])}
+                 "RowPerm": r.choice([0, 0, 1]), "Trans": r.choice([0, 1, 2]), "Equil": r.choice([0, 1]), "PivotGrowth": r.choice([0, 1]), "Cond": r.choice([0, 1]),
+                 "Sym": r.choice([0, 0, 1])}
             fmt = r.choice(["NC", "NC", "NR"])
             if cplx and fmt == "NR" and o["Trans"] == 2:
                 o["Trans"] = 1
@@ -869,6 +925,87 @@ def fam_ilu(g, prop, count, types, nmax=8):
             lines = ["tune " + " ".join(map(str, g.tune()))] + g.mat_lines(A, n, n, fmt, cplx) + g.rhs_lines(B, n, nrhs, n, cplx) + opt_lines(o)
             lines += gssvx_block(work=None, events=0, fn="gsisx") + ["destroy all", "ledger"]
             lst.append({"id": "%s-ilu%s%s-%05d-%s" % (prop, kind, "nodrop" if nodrop else "", i, ty), "lines": lines, "n": n})
+        out[ty] = lst
+    return out
+
+
+def has_perfect_matching(P, n):
+    adj = [[i for i in range(n) if (i, j) in P] for j in range(n)]
+    match = {}
+
+    def aug(j, seen):
+        for i in adj[j]:
+            if i in seen:
+                continue
+            seen.add(i)
+            if i not in match or aug(match[i], seen):
+                match[i] = j
+                return True
+        return False
+    return all(aug(j, set()) for j in range(n))
+
+
+def fam_ilu_split(g, prop, count, types):
+    """sparse chain / leaf patterns in natural order for the incomplete factorization: leaves whose only off-diagonal
+    entry is tiny (dropped), columns whose only entries lie in rows that are already pivotal (their L part is empty
+    once the tiny entry is gone: the zero-pivot fill-in search runs), short subtrees split by unrelated columns
+    (SymmetricMode relaxation of non-contiguous subtrees), relax parameter 3..10"""
+    out = {}
+    for ty, k in split_types(count, types).items():
+        cplx = is_cplx(ty)
+        lst = []
+        for i in range(k):
+            r = g.r
+            for attempt in range(30):
+                n = r.randint(6, 18)
+                A = {}
+                for j in range(n):
+                    t = r.random()
+                    if t < 0.40:
+                        rows = {j: 1.0}
+                        if j + 1 < n:
+                            rows[j + 1] = 1.0
+                    elif t < 0.58 and j + 1 < n:
+                        rows = {j: 1.0, r.randint(j + 1, n - 1): 2.0 ** -20}
+                    elif t < 0.74 and j > 0:
+                        rows = {r.randrange(j): 1.0}
+                        if r.random() < 0.3:
+                            rows[r.randrange(j)] = 2.0
+                    elif t < 0.88 and j > 0:
+                        rows = {j - 1: 1.0, j: 1.0}
+                    else:
+                        rows = {j: 1.0, r.randrange(n): 1.0, r.randrange(n): 2.0 ** -r.choice([0, 20])}
+                    for i2, v in rows.items():
+                        A[(i2, j)] = (v * r.choice([1, -1, 2, 0.5]), 0.0)
+                if r.random() < 0.5 and n >= 9:
+                    # motif: a leaf with a tiny off-diagonal entry, an unrelated column in between, a column that lives
+                    # in the leaf's pivotal row only, then a two-entry leaf that owns the next free row
+                    a = r.randint(0, n - 7)
+                    far = r.randint(a + 6, n - 1)
+                    for j in range(a, a + 5):
+                        for k2 in [k for k in A if k[1] == j]:
+                            del A[k2]
+                    A[(a, a)] = (1.0, 0.0); A[(a + 4, a)] = (2.0 ** -20, 0.0)
+                    A[(a + 1, a + 1)] = (1.0, 0.0); A[(far, a + 1)] = (1.0, 0.0)
+                    A[(a, a + 2)] = (1.0, 0.0)
+                    A[(a + 2, a + 3)] = (r.choice([1.0, 4.0]), 0.0); A[(a + 3, a + 3)] = (r.choice([1.0, 0.125]), 0.0)
+                    A[(a + 3, a + 4)] = (1.0, 0.0); A[(a + 4, a + 4)] = (1.0, 0.0)
+                    if far - 1 > a + 4:
+                        A[(far - 1, a + 4)] = (1.0, 0.0)
+                if has_perfect_matching(set(A), n):
+                    break
+            else:
+                A = {(d, d): (1.0, 0.0) for d in range(n)}
+            relax = r.randint(3, 10)
+            tune = [r.randint(1, 8), relax, r.randint(relax, 12), r.randint(1, 4), r.randint(1, 3), r.choice([2, 10, 30]), r.randint(relax, 12)]
+            o = {"iludefault": 0, "ColPerm": r.choice([NATURAL, NATURAL, NATURAL, COLAMD]), "Sym": r.choice([1, 1, 0]), "RowPerm": r.choice([0, 0, 0, 1]),
+                 "Equil": r.choice([0, 1]), "Trans": r.choice([0, 1]), "PivotGrowth": 0, "Cond": 0}
+            if r.random() < 0.4:
+                o["DropTol"] = float(r.choice([2.0 ** -10, 2.0 ** -4]))
+            B = [small_vec(g, n, cplx)]
+            lines = ["tune " + " ".join(map(str, tune))] + g.mat_lines(A, n, n, "NC", cplx) + g.rhs_lines(B, n, 1, n, cplx) + opt_lines(o)
+            lines += gssvx_block(work=None, events=0, fn="gsisx") + ["destroy all", "ledger"]
+            lst.append({"id": "%s-ilusplit-%05d-%s" % (prop, i, ty), "lines": lines, "n": n})
         out[ty] = lst
     return out
 
